@@ -51,6 +51,23 @@ def c04_mem_wat():
     return "\n".join(out) + "\n"
 
 
+def c05_align_wat():
+    """every load/store instruction with every valid alignment hint (powers of two up to the access width)"""
+    out = ["(module $c05align", "  (memory $memory 1)"]
+    for name, n, rt, signed in LOADS:
+        al = 1
+        while al <= n:
+            out.append('  (func $%s_a%d (export "%s_a%d") (param i32) (result %s)\n    local.get 0\n    %s offset=8 align=%d\n  )' % (name.replace(".", "_"), al, name.replace(".", "_"), al, TY[rt], name, al))
+            al *= 2
+    for name, n, vt in STORES:
+        al = 1
+        while al <= n:
+            out.append('  (func $%s_a%d (export "%s_a%d") (param i32) (param %s)\n    local.get 0\n    local.get 1\n    %s offset=8 align=%d\n  )' % (name.replace(".", "_"), al, name.replace(".", "_"), al, TY[vt], name, al))
+            al *= 2
+    out.append(")")
+    return "\n".join(out) + "\n"
+
+
 def split_functions(wat_text):
     """Split a generated one-function-per-entry module into (header lines, [function texts])."""
     lines = wat_text.split("\n")
